@@ -47,7 +47,8 @@ Section Spec.
                                               it_rule it = it_rule it' /\ S (it_dot it) = it_dot it';
     mi_nodup : NoDup (m_transitions m);
     mi_sym : forall t, In t (m_transitions m) ->
-                       exists sf it, nth_error (m_states m) (tr_from t) = Some sf /\ In it sf /\ next_sym it = Some (tr_symbol t)
+                       exists sf it, nth_error (m_states m) (tr_from t) = Some sf /\ In it sf /\ next_sym it = Some (tr_symbol t);
+    mi_reach : forall i st it, nth_error (m_states m) i = Some st -> In it st -> reach cx (kernel st) it
   }.
 
   Lemma reach_dot_pos K it : reach cx K it -> it_dot it > 0 -> In it K.
@@ -145,6 +146,7 @@ Section Spec.
     - intros t' Ht'. apply Htrans in Ht' as (t & Ht & Hu). destruct (Hupd_t _ _ Hu) as (F & _ & S).
       destruct (bi_sym cx b HB t Ht) as (sf & it & Hsf & Hit & Hn). unfold sts in Hsf. fold states in Hsf.
       exists sf, it. split; [eapply upd_new_state; eauto|]. split; [exact Hit|]. rewrite S. exact Hn.
+    - intros k st it Hk Hit. destruct (new_state_old states k st Hk) as (old & Ho & _). apply (bi_reach cx b HB old st it Ho Hit).
   Qed.
 
   (* the construction as a whole *)
